@@ -8,7 +8,10 @@ ID = 'C06'
 RULE = ('texts over each predefined (and a few custom) alphabet with upper/lower case mixed and one foreign byte at every '
         'position, through every input route (str, list, ndarray, base-encoded array / ragged array; enc.encode and '
         'bnp.as_encoded_array); the complete one-byte acceptance table 0..255 per alphabet; every ordered pair of alphabets '
-        'x strings over the source for as_encoded_array re-targeting and bnp.change_encoding.  Non-trivial = the text '
+        'x strings over the source for as_encoded_array re-targeting and bnp.change_encoding; the same three operations and '
+        'enc.decode on not-yet-materialised lazy views built by prior indexing (reversed rows, permutation, repeated index, '
+        'argsort of lengths, boolean mask, row slice not starting at 0, step, column slices, compositions), built fresh per '
+        'call and handed over untouched, with the expected rows obtained by the same indexing on Python lists.  Non-trivial = the text '
         'contains a foreign or lower-case character, or the pair is a cross-alphabet pair')
 EXHAUSTIVE = {'quick': False, 'thorough': False}
 TIE = 'correspondence (build_lookup / encode_rows / retarget / change evaluated in Coq on the same inputs)'
@@ -158,6 +161,113 @@ def _gen_pairs(tier, rng):
     return cases
 
 
+# ----------------------------------------------------------------------------- lazy views
+# A view is a list of indexing steps applied to a freshly built (Encoded)RaggedArray / EncodedArray; the result is a
+# NOT-yet-materialised npstructures view (RaggedView / RaggedView2, non-contiguous) that is handed to the library
+# untouched.  The same steps applied to plain Python lists give the rows the Coq side sees.
+def _apply_view(rows, view, flat=False):
+    x = list(rows[0]) if flat else [list(r) for r in rows]
+    for op in view:
+        k = op[0]
+        if k == 'rev':
+            x = x[::-1]
+        elif k == 'perm':
+            x = [x[i] for i in op[1]]
+        elif k == 'mask':
+            x = [r for r, m in zip(x, op[1]) if m]
+        elif k == 'slice':
+            x = x[op[1]:op[2]]
+        elif k == 'step':
+            x = x[::op[1]]
+        elif k == 'col':
+            x = [r[op[1]:op[2]] for r in x]
+        else:
+            raise ValueError(op)
+    return [x] if flat else x
+
+
+def _np_view(x, view):
+    import numpy as np
+    for op in view:
+        k = op[0]
+        if k == 'rev':
+            x = x[::-1]
+        elif k == 'perm':
+            x = x[np.array(op[1], dtype=int)]
+        elif k == 'mask':
+            x = x[np.array(op[1], dtype=bool)]
+        elif k == 'slice':
+            x = x[op[1]:op[2]]
+        elif k == 'step':
+            x = x[::op[1]]
+        elif k == 'col':
+            x = x[:, op[1]:op[2]]
+    return x
+
+
+def _views(rng, nrow, lens, flat=False):
+    """one view of every shape for a base with nrow rows (flat: nrow elements)"""
+    perm = list(range(nrow))
+    while nrow > 1 and perm == list(range(nrow)):
+        rng.shuffle(perm)
+    mask = [rng.random() < 0.6 for _ in range(nrow)]
+    if all(mask):
+        mask[rng.randrange(nrow)] = False
+    a = rng.randint(1, max(1, nrow - 1))
+    vs = [[('rev',)], [('perm', perm)], [('perm', [rng.randrange(nrow) for _ in range(nrow + 1)])],
+          [('mask', mask)], [('slice', a, rng.randint(a, nrow))], [('slice', a, None)], [('step', 2)],
+          [('perm', perm), ('rev',)], [('rev',), ('slice', 1, None)]]
+    if not flat:
+        vs += [[('perm', sorted(range(nrow), key=lambda i: (lens[i], i)))],        # ra[np.argsort(lengths)]
+               [('perm', sorted(range(nrow), key=lambda i: (-lens[i], i)))],
+               [('col', 1, None)], [('col', None, -1)], [('col', None, 1)], [('col', -2, None)],
+               [('slice', a, None), ('col', 1, None)], [('perm', perm), ('col', 1, 3)], [('mask', [False] * nrow)]]
+    return vs
+
+
+def _gen_views(tier, rng):
+    cases = []
+    dsts_for = {}
+    names = [n for n, _ in PRE]
+    reps = 1 if tier == 'quick' else 6
+    for a in ENCS:
+        A = _alpha(a)
+        n = len(A)
+        # targets: the same encoding, one that shares a prefix, one that does not, BaseEncoding
+        dsts = [a, 'Base', names[(ENCS.index(a) + 1) % len(names)], 'ACGTEncoding' if a != 'ACGTEncoding' else 'ACGTnEncoding']
+        for rep in range(reps):
+            nrow = rng.randint(3, 5)
+            lens = rng.sample(range(0, 7), nrow)              # distinct lengths, so a stale shape is visible
+            if rep % 2:
+                lens[rng.randrange(nrow)] = 0
+            base = [[rng.randrange(n) for _ in range(L)] for L in lens]
+            fl = [[rng.randrange(n) for _ in range(rng.randint(4, 7))]]
+            tbase = [_s([_rcase(rng, A[c]) for c in r]) for r in base]
+            foreign = [c for c in _interesting(A) if not _member(A, c)]
+            for vi, view in enumerate(_views(rng, nrow, lens)):
+                rows = _apply_view(base, view)
+                for b in dsts:
+                    for kind in (1, 2):
+                        cases.append(dict(kind=kind, route=2, src=a, dst=b, base=base, view=view, rows=rows))
+                cases.append(dict(kind=2, route=8, src=a, dst='Base', base=base, view=view, rows=rows))   # enc.decode(view)
+                # text through the encoder: base-encoded ragged view, one foreign byte in every third
+                tb = list(tbase)
+                if vi % 3 == 2:
+                    r = max(range(nrow), key=lambda i: lens[i])
+                    tb[r] = tb[r][:1] + chr(rng.choice(foreign)) + tb[r][1:]
+                cases.append(dict(kind=0, route=4 if vi % 2 else 7, dst=a, base=tb, view=view,
+                                  rows=[''.join(r) for r in _apply_view([list(r) for r in tb], view)]))
+            for vi, view in enumerate(_views(rng, len(fl[0]), None, flat=True)):
+                rows = _apply_view(fl, view, flat=True)
+                for b in dsts[:3]:
+                    for kind in (1, 2):
+                        cases.append(dict(kind=kind, route=0, src=a, dst=b, base=fl, view=view, rows=rows))
+                tf = _s([_rcase(rng, A[c]) for c in fl[0]])
+                cases.append(dict(kind=0, route=3 if vi % 2 else 6, dst=a, base=[tf], view=view,
+                                  rows=[''.join(_apply_view([list(tf)], view, flat=True)[0])]))
+    return cases
+
+
 def generate(tier, seed):
     rng = random.Random(seed * 7919 + 6)
     cases = []
@@ -167,7 +277,7 @@ def generate(tier, seed):
     enc = _gen_encode(tier, rng)
     pairs = _gen_pairs(tier, rng)
     enc.sort(key=lambda c: sum(len(r) for r in c['rows']))
-    cases += enc + pairs
+    cases += enc + pairs + _gen_views(tier, rng)
     return cases
 
 
@@ -202,8 +312,8 @@ def _result(r, want_flat, dst, enc_obj):
     if want_flat:
         if not isinstance(r, EncodedArray) or r.raw().ndim != 1:
             return dict(err='other', name='type:' + type(r).__name__)
-        codes = [[int(x) for x in r.raw()]]
         try:
+            codes = [[int(x) for x in r.raw()]]
             text = [r.to_string()]
             t2 = [''.join(chr(int(c)) for c in r.encoding.decode(r).raw())]
         except Exception as ex:
@@ -211,8 +321,11 @@ def _result(r, want_flat, dst, enc_obj):
     else:
         if not isinstance(r, EncodedRaggedArray):
             return dict(err='other', name='type:' + type(r).__name__)
-        codes = [[int(x) for x in row] for row in r.raw().tolist()]
-        lens = [int(x) for x in r.lengths]
+        try:
+            codes = [[int(x) for x in row] for row in r.raw().tolist()]
+            lens = [int(x) for x in r.lengths]
+        except Exception as ex:
+            return dict(err='undec', name='raw:' + type(ex).__name__)
         if lens != [len(c) for c in codes]:
             return dict(err='other', name='shape')
         try:
@@ -248,7 +361,18 @@ def observe(case):
         rows = case['rows']
         flat_bytes = np.frombuffer(''.join(rows).encode('latin1'), dtype=np.uint8)
         try:
-            if route == 0:
+            if 'view' in case:
+                # a lazy, non-contiguous view built by prior indexing; handed over untouched
+                base = case['base']
+                bb = np.frombuffer(''.join(base).encode('latin1'), dtype=np.uint8).copy()
+                if route in (4, 7):
+                    x = _np_view(EncodedRaggedArray(EncodedArray(bb, BaseEncoding), [len(b) for b in base]), case['view'])
+                    r = dst.encode(x) if route == 4 else bnp.as_encoded_array(x, dst)
+                elif route == 3:
+                    r = dst.encode(_np_view(bb, case['view']))
+                else:
+                    r = bnp.as_encoded_array(_np_view(EncodedArray(bb, BaseEncoding), case['view']), dst)
+            elif route == 0:
                 r = bnp.as_encoded_array(rows[0], dst)
             elif route == 1:
                 r = dst.encode(rows[0])
@@ -270,13 +394,20 @@ def observe(case):
         return o
     src = _get_enc(case['src'])
     rows = case['rows']
+    if 'view' in case:
+        rows = case['base']
     flat = np.array([c for r in rows for c in r], dtype=np.uint8)
     if route == 0:
         x = EncodedArray(flat, src)
     else:
         x = EncodedRaggedArray(EncodedArray(flat, src), [len(r) for r in rows])
     try:
-        r = bnp.as_encoded_array(x, dst) if kind == 1 else bnp.change_encoding(x, dst)
+        if 'view' in case:
+            x = _np_view(x, case['view'])      # lazy view; not touched before the call
+        if route == 8:
+            r = src.decode(x)
+        else:
+            r = bnp.as_encoded_array(x, dst) if kind == 1 else bnp.change_encoding(x, dst)
     except Exception as ex:
         return _err(ex)
     o = _result(r, route == 0, case['dst'], dst)
